@@ -76,16 +76,17 @@ func (s *busSub) Unsubscribe() error { return s.b.unsubscribe(s) }
 type Bus struct {
 	Clock *Clock
 
-	mu        sync.Mutex
-	connected bool
-	closed    bool
-	closedH   func(error)
-	subs      map[string]*busSub
-	reqs      []*BusReq
-	log       []BusEv
-	viol      []string
-	inflight  atomic.Int64 // goroutines started by the bus not yet finished
-	counter   atomic.Int64 // bumps on every boundary event (quiescence)
+	mu         sync.Mutex
+	connected  bool
+	closed     bool
+	closedH    func(error)
+	subs       map[string]*busSub
+	reqs       []*BusReq
+	log        []BusEv
+	viol       []string
+	deadUnsubs int
+	inflight   atomic.Int64 // goroutines started by the bus not yet finished
+	counter    atomic.Int64 // bumps on every boundary event (quiescence)
 
 	deliverMu sync.Mutex // serialises deliveries like the single NATS listener
 
@@ -226,10 +227,9 @@ func (b *Bus) unsubscribe(s *busSub) error {
 	b.mu.Lock()
 	defer b.mu.Unlock()
 	if !s.active {
-		if !b.closed {
-			b.viol = append(b.viol, fmt.Sprintf("C09 unsubscribe of dead namespace %q", s.ns))
-		}
-		return nil
+		// Like nats.go: unsubscribing an already removed subscription fails.
+		b.deadUnsubs++
+		return errors.New("nats: invalid subscription")
 	}
 	s.active = false
 	if b.subs[s.ns] == s {
